@@ -36,7 +36,7 @@ META = {
   "M12 aes_big_ctr.c: returns cc-1 - caught by the real-core query split-aes_big-ctr (thorough, cvc5), replayed natively",
   "M13 aes_big_dec.c: br_aes_big_keysched_inv applies InvMixColumns to round key 0 as well - caught: aes-keysched-big-inv-K16",
   "M14 aes_ct_cbcenc.c: core called with sk_exp + 8 - caught: stand-in core's round-key check in modes-aes_ct-cbcenc, replayed natively against the definition",
-  "(unmutated repo) ctr-tail-counter-aes_ct64-L20 FAILS on /repo as is: br_aes_ct64_ctr_run returns start+floor(len/16) after a partial final block where aes_big/aes_small/aes_ct return start+ceil(len/16); br_aesctr_drbg_generate continues from the returned value, so over aes_ct64 it outputs key-stream bytes twice - genuine defect, reported",
+  "(genuine defect, found by ctr-tail-counter-aes_ct64-L20 on the unmutated repo, fixed in repo commit e6d6da2) br_aes_ct64_ctr_run returned start+floor(len/16) after a partial final block where aes_big/aes_small/aes_ct return start+ceil(len/16) (cc=0, len=20: 1 instead of 2); br_aesctr_drbg_generate continues from the returned value, so over aes_ct64 it output key-stream bytes twice; the query reproduced it natively and passes on the fixed tree",
   "M15 ghash_ctmul32.c: reduction term (lw >> 7) -> (lw >> 6) - caught: ghash-units-ctmul32-I0-15 (both operand orders); the padding/chaining structure queries alone do not see it",
   "not covered: an arithmetic slip in the Poly1305 limb code (only the footer-only message is decided, ctmul vs ctmul32)",
  ],
